@@ -22,7 +22,7 @@ ASSUMPTIONS = [
 ]
 COMPONENTS = {"real": ["System / Molecule / Stochastic / MolGen, distributions, RDKit"],
               "stub": ["3-D embedding (zero conformer)", "numpy bit generator (SimRng)"]}
-FAULT_KINDS = ["gen_close", "gen_abandon", "gen_throw", "rng_raise", "rng_interrupt"]
+FAULT_KINDS = ["gen_close", "gen_abandon", "gen_throw", "rng_raise", "rng_interrupt", "embed_fail"]
 
 
 def plan(tier):
